@@ -38,7 +38,7 @@ func main() {
 		for _, id := range ids {
 			p := props[id]
 			out = append(out, map[string]interface{}{"id": id, "title": p.Title, "technique": p.Technique,
-				"explanation": p.Explanation, "not_decided": p.NotDecided, "assumptions": p.Assumptions})
+				"explanation": fullExplanation(p), "not_decided": p.NotDecided, "assumptions": p.Assumptions})
 		}
 		b, _ := json.MarshalIndent(out, "", " ")
 		fmt.Println(string(b))
